@@ -143,7 +143,7 @@ class Content:
 def content_variant(e):
     """The command-line variant is part of what a command computes - except for generator statements, whose
     command line may change without the output being considered affected (documented exemption)."""
-    return '' if e.get('generator') else e['variant']
+    return '-' if e.get('generator') else e['variant']
 
 
 def rsp_content(g, e):
